@@ -96,4 +96,3 @@ Proof.
   intros Ha Hb HB Hn Hk HC Hu.
   exact (TT_o_M_vi_o_bb_sig_lp_R R I.type rel NumR NumI NumRI_R a A Ha b B Hb lB LB HB n N Hn k K Hk lC LC HC u U Hu).
 Qed.
-Print Assumptions klpq_multi_enclosed.
